@@ -4,6 +4,7 @@ mod c01_05;
 mod c03cli;
 mod c06;
 mod c07;
+mod c08;
 mod c09_12;
 mod cli;
 mod ws;
@@ -99,6 +100,7 @@ fn table(prop: &str) -> Option<(RunFn, ReplayFn)> {
         "C05" => (props::c05_run, props::c05_replay),
         "C06" => (c06::run, c06::replay),
         "C07" => (c07::run, c07::replay),
+        "C08" => (c08::run, c08::replay),
         "C09" => (props::c09_run, props::c09_replay),
         "C10" => (c10::run, c10::replay),
         "C11" => (props::c11_run, props::c11_replay),
